@@ -1,7 +1,7 @@
 #!/bin/sh
 # tools/eval_seeds.sh <PID> [extra PIDs to also run]: confirm + run checks for /tmp/seedout/<PID>/{1,2,3}
 P=$1; shift
-for n in 1 2 3; do
+for n in ${SEEDNUMS:-1 2 3}; do
   d=/tmp/seedout/$P/$n
   [ -f $d/patch.diff ] || continue
   echo "--- seed $P/$n"
